@@ -337,3 +337,26 @@ Example nonvacuous_run :
     [SThrow 0; SWatchThrow 0; SFinish 1; SRunThrow; SFinish 0; SWatchCease 1; SSpawnCloser; SFinish 2; SWatchCease 0; SWatchCease 2; SClose; SRunDone] = Some s /\
     closed s = true /\ ceases s = 1 /\ length (procs s) = 3.
 Proof. eexists. split; [vm_compute; reflexivity|]. vm_compute. auto. Qed.
+
+(* ---------------- waking a catch event over a message flow ---------------- *)
+Lemma wrun_direct_gen : forall ls s,
+  wwoken (fold_left (wstep false) ls s) = wwoken s + wexpected (wlistening s) ls.
+Proof.
+  induction ls as [|l ls IH]; intros s; cbn [fold_left wexpected]; [lia|].
+  destruct l; rewrite IH; cbn [wstep wlistening wwoken].
+  - reflexivity.
+  - destruct (wannounced s); reflexivity.
+  - destruct (wlistening s); cbn; lia.
+Qed.
+
+(* handed to the process directly: every throw made while the catch event listens wakes it exactly once, and no other
+   throw wakes anything -- whenever the watcher gets round to reading the announcements *)
+Theorem direct_wake_exact ls : wwoken (wrun false ls) = wexpected false ls.
+Proof. unfold wrun. rewrite wrun_direct_gen. reflexivity. Qed.
+
+(* through the table: the catch event listens, the throw is handled before the watcher has read the announcement -- the
+   message is lost *)
+Lemma refuted_wake_through_the_table :
+  wwoken (wrun true [WListen; WThrow; WRegister]) = 0 /\ wexpected false [WListen; WThrow; WRegister] = 1 /\
+  wwoken (wrun true [WListen; WRegister; WThrow]) = 1.
+Proof. repeat split. Qed.
